@@ -306,7 +306,9 @@ static void trees()
     g_run.cbs[1] = &cbB;
     g_run.cblog.clear();
     g_guest_results.clear();
+    crash_case("C12 cfg=" + cfgname() + " part=tree", "tree|" + t.str());
     auto o = attempt([&] { run_node(0); });
+    crash_clear();
     n_eval++;
     n_nontriv += t.nodes.size() > 1;
     std::vector<CbRec> wc;
@@ -453,7 +455,9 @@ static void trees()
     g_tree = &t;
     g_hlog.clear();
     int res = 0;
+    crash_case("C12 cfg=" + cfgname() + " part=tree", "tree|" + t.str());
     auto o = attempt([&] { res = hrun(0); });
+    crash_clear();
     n_eval++;
     n_nontriv += t.nodes.size() > 1;
     std::vector<HRec> want;
@@ -558,6 +562,7 @@ static void replay_case(const std::string&)
 int main(int argc, char** argv)
 {
   parse(argc, argv);
+  install_crash_reporter();
   bool thorough = has_flag("--thorough");
   if (thorough) g_tree_depth = 5;
   if (g_args.replay && std::string(g_args.replay).rfind("tree|", 0) == 0) g_tree_depth = std::max(3, tree_str_depth(std::string(g_args.replay).substr(5)));
